@@ -461,6 +461,7 @@ Lemma deliver_dgram_SInv cf s d : SInv s -> auth_dg (s_log s) d -> SInv (deliver
 Proof.
   intros H Hd. unfold deliver_dgram. destruct (dg_toR d).
   - destruct (s_rdead s); [assumption|]. destruct (s_rd s) as [r|] eqn:Er; [|assumption].
+    destruct (rd_alive r); [|assumption].
     destruct (deliver_subs_R cf r (dg_subs d) []) as [r1 out] eqn:E.
     pose proof (si_rd s H) as Hr. rewrite Er in Hr.
     destruct (deliver_subs_R_RInv (fun c => In c (s_log s)) (fun _ => True) (fun _ _ => I) cf (dg_subs d) r [] r1 out Hd Hr (Forall_nil _) E) as [Hr1 Ho].
@@ -531,7 +532,8 @@ Proof.
     { intros s'. unfold poke. destruct (s_rp s'); [|reflexivity]. destruct (write_message _ _ _ _). reflexivity. }
     assert (Hlog2 : forall s' d', s_log (deliver_dgram cf s' d') = s_log s').
     { intros s' d'. unfold deliver_dgram. destruct (dg_toR d').
-      - destruct (s_rdead s'); [reflexivity|]. destruct (s_rd s'); [|reflexivity].
+      - destruct (s_rdead s'); [reflexivity|]. destruct (s_rd s') as [r'|]; [|reflexivity].
+        destruct (rd_alive r'); [|reflexivity].
         destruct (deliver_subs_R _ _ _ _). reflexivity.
       - generalize s'. induction (dg_subs d') as [|m t IH]; intros s0; cbn; [reflexivity|].
         rewrite IH. unfold deliver_sub_W. destruct (s_rp s0); [|reflexivity].
@@ -543,7 +545,7 @@ Proof.
     + rewrite Hlog, Hlog2. cbn. assumption.
   - pose proof (pump_SInv cf pump_fuel s 0 H) as Hp.
     destruct (pump pump_fuel cf s 0) as [s1 n]. exact Hp.
-  - destruct (s_rd s) as [r|] eqn:Er; [|assumption]. cbn [fst].
+  - destruct (s_rd s) as [r|] eqn:Er; [|assumption]. destruct (rd_alive r); [|assumption]. cbn [fst].
     pose proof (si_rd s H) as Hr. rewrite Er in Hr.
     destruct H as [H1 H2 H3 H4 H5]. constructor; cbn; try assumption.
   - destruct (s_rd s) as [r|] eqn:Er; [assumption|].
@@ -552,12 +554,15 @@ Proof.
     + apply poke_SInv. destruct H as [H1 H2 H3 H4 H5]. constructor; cbn; try assumption.
       unfold ARInv, RInv, WOk; cbn. repeat split; constructor.
     + destruct H as [H1 H2 H3 H4 H5]. constructor; cbn; try assumption. reflexivity.
-  - destruct H as [H1 H2 H3 H4 H5]. constructor; cbn; try assumption. exact I.
-  - destruct H as [H1 H2 H3 H4 H5]. constructor; cbn; try assumption. exact I.
+  - pose proof (si_rd s H) as Hr. destruct H as [H1 H2 H3 H4 H5]. constructor; cbn; try assumption.
+    destruct (s_rd s) as [r|]; cbn; [exact Hr|exact I].
+  - pose proof (si_rd s H) as Hr. destruct H as [H1 H2 H3 H4 H5]. constructor; cbn; try assumption.
+    destruct (s_rd s) as [r|]; cbn; [exact Hr|exact I].
   - destruct (is_acked (s_rp s) (s_last s)); cbn [fst]; apply SInv_set_waits; assumption.
   - destruct (poll (s_waits s)). cbn [fst]. apply SInv_set_waits; assumption.
   - destruct (s_rd s) as [r|] eqn:Er; [|assumption].
     pose proof (si_rd s H) as Hr. rewrite Er in Hr.
+    destruct (negb (rd_alive r)); [assumption|].
     destruct (negb (rd_tl r)); [assumption|].
     destruct (hist_received (rd_wp r)); cbn [fst]; apply SInv_set_rd; assumption.
   - destruct (s_rd s) as [r|] eqn:Er; [|assumption].
